@@ -1,49 +1,130 @@
-/* flat memory split into small word-granular regions (each a separate small C array so CBMC flattens it) */
+/* Flat memory for `ir2c --flat` units, split into small word-granular regions: each region is its own small C array so that CBMC
+ * flattens it, and an access at a concrete address (single-path mode) touches exactly one word.  Regions are 256 bytes
+ * (64 32-bit words) and are selected by the address bits above the low 8.  The harness chooses the region base addresses
+ * (REG_BASE, NREG <= 24) and defines IR2C_REGIONS_IMPL in exactly one translation unit (the harness itself). */
 #ifndef IR2C_REGIONS_H
 #define IR2C_REGIONS_H
 #include <stdint.h>
 #define RWORDS 64            /* 256 bytes per region */
 #ifndef NREG
-#define NREG 8
+#define NREG 16
 #endif
 extern const uint64_t REG_BASE[NREG];
-uint32_t R0[RWORDS], R1[RWORDS], R2[RWORDS], R3[RWORDS], R4[RWORDS], R5[RWORDS], R6[RWORDS], R7[RWORDS];
-#ifndef IR2C_ACCESS
+extern uint32_t R0[RWORDS];
+extern uint32_t R1[RWORDS];
+extern uint32_t R2[RWORDS];
+extern uint32_t R3[RWORDS];
+extern uint32_t R4[RWORDS];
+extern uint32_t R5[RWORDS];
+extern uint32_t R6[RWORDS];
+extern uint32_t R7[RWORDS];
+extern uint32_t R8[RWORDS];
+extern uint32_t R9[RWORDS];
+extern uint32_t R10[RWORDS];
+extern uint32_t R11[RWORDS];
+extern uint32_t R12[RWORDS];
+extern uint32_t R13[RWORDS];
+extern uint32_t R14[RWORDS];
+extern uint32_t R15[RWORDS];
+extern uint32_t R16[RWORDS];
+extern uint32_t R17[RWORDS];
+extern uint32_t R18[RWORDS];
+extern uint32_t R19[RWORDS];
+extern uint32_t R20[RWORDS];
+extern uint32_t R21[RWORDS];
+extern uint32_t R22[RWORDS];
+extern uint32_t R23[RWORDS];
+void ir2c_access_hook(uint64_t a, uint64_t n, int write);     /* every load/store of translated code; harness-defined when IR2C_ACCESS_HOOK */
+#ifdef IR2C_ACCESS_HOOK
+#define IR2C_ACCESS(a, n, w) ir2c_access_hook((a), (n), (w))
+#else
 #define IR2C_ACCESS(a, n, w) ((void)0)
 #endif
+#ifdef __CPROVER__
+#define IR2C_RASSERT(c, m) __CPROVER_assert(c, m)
+#else
+#include <assert.h>
+#define IR2C_RASSERT(c, m) assert((c) && m)
+#endif
+static inline int ir2c_region_of(uint64_t a) {
+	for(int r = 0; r < NREG; r++) if((a & ~0xFFULL) == REG_BASE[r]) return r;
+	return -1;
+}
+/* raw word access (no hook): also used by the harness for its own reads and writes */
 static inline uint32_t ir2c_ldw(uint64_t a) {
 	uint64_t w = (a & 0xFF) >> 2;
-	if((a & ~0xFFULL) == REG_BASE[0]) return R0[w];
-	if((a & ~0xFFULL) == REG_BASE[1]) return R1[w];
-	if((a & ~0xFFULL) == REG_BASE[2]) return R2[w];
-	if((a & ~0xFFULL) == REG_BASE[3]) return R3[w];
-	if((a & ~0xFFULL) == REG_BASE[4]) return R4[w];
-	if((a & ~0xFFULL) == REG_BASE[5]) return R5[w];
-	if((a & ~0xFFULL) == REG_BASE[6]) return R6[w];
-	if((a & ~0xFFULL) == REG_BASE[7]) return R7[w];
-	__CPROVER_assert(0, "flat memory: access outside every region");
+	if(0 < NREG && (a & ~0xFFULL) == REG_BASE[0 < NREG ? 0 : 0]) return R0[w];
+	if(1 < NREG && (a & ~0xFFULL) == REG_BASE[1 < NREG ? 1 : 0]) return R1[w];
+	if(2 < NREG && (a & ~0xFFULL) == REG_BASE[2 < NREG ? 2 : 0]) return R2[w];
+	if(3 < NREG && (a & ~0xFFULL) == REG_BASE[3 < NREG ? 3 : 0]) return R3[w];
+	if(4 < NREG && (a & ~0xFFULL) == REG_BASE[4 < NREG ? 4 : 0]) return R4[w];
+	if(5 < NREG && (a & ~0xFFULL) == REG_BASE[5 < NREG ? 5 : 0]) return R5[w];
+	if(6 < NREG && (a & ~0xFFULL) == REG_BASE[6 < NREG ? 6 : 0]) return R6[w];
+	if(7 < NREG && (a & ~0xFFULL) == REG_BASE[7 < NREG ? 7 : 0]) return R7[w];
+	if(8 < NREG && (a & ~0xFFULL) == REG_BASE[8 < NREG ? 8 : 0]) return R8[w];
+	if(9 < NREG && (a & ~0xFFULL) == REG_BASE[9 < NREG ? 9 : 0]) return R9[w];
+	if(10 < NREG && (a & ~0xFFULL) == REG_BASE[10 < NREG ? 10 : 0]) return R10[w];
+	if(11 < NREG && (a & ~0xFFULL) == REG_BASE[11 < NREG ? 11 : 0]) return R11[w];
+	if(12 < NREG && (a & ~0xFFULL) == REG_BASE[12 < NREG ? 12 : 0]) return R12[w];
+	if(13 < NREG && (a & ~0xFFULL) == REG_BASE[13 < NREG ? 13 : 0]) return R13[w];
+	if(14 < NREG && (a & ~0xFFULL) == REG_BASE[14 < NREG ? 14 : 0]) return R14[w];
+	if(15 < NREG && (a & ~0xFFULL) == REG_BASE[15 < NREG ? 15 : 0]) return R15[w];
+	if(16 < NREG && (a & ~0xFFULL) == REG_BASE[16 < NREG ? 16 : 0]) return R16[w];
+	if(17 < NREG && (a & ~0xFFULL) == REG_BASE[17 < NREG ? 17 : 0]) return R17[w];
+	if(18 < NREG && (a & ~0xFFULL) == REG_BASE[18 < NREG ? 18 : 0]) return R18[w];
+	if(19 < NREG && (a & ~0xFFULL) == REG_BASE[19 < NREG ? 19 : 0]) return R19[w];
+	if(20 < NREG && (a & ~0xFFULL) == REG_BASE[20 < NREG ? 20 : 0]) return R20[w];
+	if(21 < NREG && (a & ~0xFFULL) == REG_BASE[21 < NREG ? 21 : 0]) return R21[w];
+	if(22 < NREG && (a & ~0xFFULL) == REG_BASE[22 < NREG ? 22 : 0]) return R22[w];
+	if(23 < NREG && (a & ~0xFFULL) == REG_BASE[23 < NREG ? 23 : 0]) return R23[w];
+	IR2C_RASSERT(0, "memory access outside every mapped region (wild pointer)");
 	return 0;
 }
 static inline void ir2c_stw(uint64_t a, uint32_t v) {
 	uint64_t w = (a & 0xFF) >> 2;
-	if((a & ~0xFFULL) == REG_BASE[0]) R0[w] = v;
-	else if((a & ~0xFFULL) == REG_BASE[1]) R1[w] = v;
-	else if((a & ~0xFFULL) == REG_BASE[2]) R2[w] = v;
-	else if((a & ~0xFFULL) == REG_BASE[3]) R3[w] = v;
-	else if((a & ~0xFFULL) == REG_BASE[4]) R4[w] = v;
-	else if((a & ~0xFFULL) == REG_BASE[5]) R5[w] = v;
-	else if((a & ~0xFFULL) == REG_BASE[6]) R6[w] = v;
-	else if((a & ~0xFFULL) == REG_BASE[7]) R7[w] = v;
-	else __CPROVER_assert(0, "flat memory: access outside every region");
+	if(0 < NREG && (a & ~0xFFULL) == REG_BASE[0 < NREG ? 0 : 0]) R0[w] = v;
+	else if(1 < NREG && (a & ~0xFFULL) == REG_BASE[1 < NREG ? 1 : 0]) R1[w] = v;
+	else if(2 < NREG && (a & ~0xFFULL) == REG_BASE[2 < NREG ? 2 : 0]) R2[w] = v;
+	else if(3 < NREG && (a & ~0xFFULL) == REG_BASE[3 < NREG ? 3 : 0]) R3[w] = v;
+	else if(4 < NREG && (a & ~0xFFULL) == REG_BASE[4 < NREG ? 4 : 0]) R4[w] = v;
+	else if(5 < NREG && (a & ~0xFFULL) == REG_BASE[5 < NREG ? 5 : 0]) R5[w] = v;
+	else if(6 < NREG && (a & ~0xFFULL) == REG_BASE[6 < NREG ? 6 : 0]) R6[w] = v;
+	else if(7 < NREG && (a & ~0xFFULL) == REG_BASE[7 < NREG ? 7 : 0]) R7[w] = v;
+	else if(8 < NREG && (a & ~0xFFULL) == REG_BASE[8 < NREG ? 8 : 0]) R8[w] = v;
+	else if(9 < NREG && (a & ~0xFFULL) == REG_BASE[9 < NREG ? 9 : 0]) R9[w] = v;
+	else if(10 < NREG && (a & ~0xFFULL) == REG_BASE[10 < NREG ? 10 : 0]) R10[w] = v;
+	else if(11 < NREG && (a & ~0xFFULL) == REG_BASE[11 < NREG ? 11 : 0]) R11[w] = v;
+	else if(12 < NREG && (a & ~0xFFULL) == REG_BASE[12 < NREG ? 12 : 0]) R12[w] = v;
+	else if(13 < NREG && (a & ~0xFFULL) == REG_BASE[13 < NREG ? 13 : 0]) R13[w] = v;
+	else if(14 < NREG && (a & ~0xFFULL) == REG_BASE[14 < NREG ? 14 : 0]) R14[w] = v;
+	else if(15 < NREG && (a & ~0xFFULL) == REG_BASE[15 < NREG ? 15 : 0]) R15[w] = v;
+	else if(16 < NREG && (a & ~0xFFULL) == REG_BASE[16 < NREG ? 16 : 0]) R16[w] = v;
+	else if(17 < NREG && (a & ~0xFFULL) == REG_BASE[17 < NREG ? 17 : 0]) R17[w] = v;
+	else if(18 < NREG && (a & ~0xFFULL) == REG_BASE[18 < NREG ? 18 : 0]) R18[w] = v;
+	else if(19 < NREG && (a & ~0xFFULL) == REG_BASE[19 < NREG ? 19 : 0]) R19[w] = v;
+	else if(20 < NREG && (a & ~0xFFULL) == REG_BASE[20 < NREG ? 20 : 0]) R20[w] = v;
+	else if(21 < NREG && (a & ~0xFFULL) == REG_BASE[21 < NREG ? 21 : 0]) R21[w] = v;
+	else if(22 < NREG && (a & ~0xFFULL) == REG_BASE[22 < NREG ? 22 : 0]) R22[w] = v;
+	else if(23 < NREG && (a & ~0xFFULL) == REG_BASE[23 < NREG ? 23 : 0]) R23[w] = v;
+	else IR2C_RASSERT(0, "memory access outside every mapped region (wild pointer)");
 }
-static inline uint32_t ir2c_ld4(uint64_t a) { __CPROVER_assert((a & 3) == 0, "aligned 4"); IR2C_ACCESS(a, 4, 0); return ir2c_ldw(a); }
-static inline uint64_t ir2c_ld8(uint64_t a) { __CPROVER_assert((a & 7) == 0, "aligned 8"); IR2C_ACCESS(a, 8, 0); return (uint64_t)ir2c_ldw(a) | (uint64_t)ir2c_ldw(a + 4) << 32; }
+static inline uint32_t ir2c_ld4(uint64_t a) { IR2C_RASSERT((a & 3) == 0, "misaligned 4-byte access"); IR2C_ACCESS(a, 4, 0); return ir2c_ldw(a); }
+static inline uint64_t ir2c_ld8(uint64_t a) { IR2C_RASSERT((a & 7) == 0, "misaligned 8-byte access"); IR2C_ACCESS(a, 8, 0); return (uint64_t)ir2c_ldw(a) | (uint64_t)ir2c_ldw(a + 4) << 32; }
 static inline uint8_t ir2c_ld1(uint64_t a) { IR2C_ACCESS(a, 1, 0); return (uint8_t)(ir2c_ldw(a & ~3ULL) >> (8 * (a & 3))); }
-static inline uint16_t ir2c_ld2(uint64_t a) { __CPROVER_assert((a & 1) == 0, "aligned 2"); IR2C_ACCESS(a, 2, 0); return (uint16_t)(ir2c_ldw(a & ~3ULL) >> (8 * (a & 3))); }
-static inline void ir2c_st4(uint64_t a, uint32_t v) { __CPROVER_assert((a & 3) == 0, "aligned 4"); IR2C_ACCESS(a, 4, 1); ir2c_stw(a, v); }
-static inline void ir2c_st8(uint64_t a, uint64_t v) { __CPROVER_assert((a & 7) == 0, "aligned 8"); IR2C_ACCESS(a, 8, 1); ir2c_stw(a, (uint32_t)v); ir2c_stw(a + 4, (uint32_t)(v >> 32)); }
+static inline uint16_t ir2c_ld2(uint64_t a) { IR2C_RASSERT((a & 1) == 0, "misaligned 2-byte access"); IR2C_ACCESS(a, 2, 0); return (uint16_t)(ir2c_ldw(a & ~3ULL) >> (8 * (a & 3))); }
+static inline void ir2c_st4(uint64_t a, uint32_t v) { IR2C_RASSERT((a & 3) == 0, "misaligned 4-byte access"); IR2C_ACCESS(a, 4, 1); ir2c_stw(a, v); }
+static inline void ir2c_st8(uint64_t a, uint64_t v) { IR2C_RASSERT((a & 7) == 0, "misaligned 8-byte access"); IR2C_ACCESS(a, 8, 1); ir2c_stw(a, (uint32_t)v); ir2c_stw(a + 4, (uint32_t)(v >> 32)); }
 static inline void ir2c_st1(uint64_t a, uint8_t v) { IR2C_ACCESS(a, 1, 1); uint32_t sh = 8 * (a & 3); uint32_t o = ir2c_ldw(a & ~3ULL); ir2c_stw(a & ~3ULL, (o & ~(0xFFu << sh)) | ((uint32_t)v << sh)); }
 static inline void ir2c_st2(uint64_t a, uint16_t v) { IR2C_ACCESS(a, 2, 1); uint32_t sh = 8 * (a & 3); uint32_t o = ir2c_ldw(a & ~3ULL); ir2c_stw(a & ~3ULL, (o & ~(0xFFFFu << sh)) | ((uint32_t)v << sh)); }
-static inline void ir2c_flat_memmove(uint64_t d, uint64_t s, uint64_t n) { for(uint64_t i = 0; i < n; i++) { uint64_t k = d <= s ? i : n - 1 - i; ir2c_st1(d + k, ir2c_ld1(s + k)); } }
-static inline void ir2c_flat_memset(uint64_t d, uint8_t c, uint64_t n) { for(uint64_t i = 0; i < n; i++) ir2c_st1(d + i, c); }
+static inline void ir2c_flat_memmove(uint64_t d, uint64_t s, uint64_t n) {
+	if(((d | s | n) & 3) == 0) { for(uint64_t i = 0; i < n; i += 4) { uint64_t k = d <= s ? i : n - 4 - i; ir2c_st4(d + k, ir2c_ld4(s + k)); } }
+	else for(uint64_t i = 0; i < n; i++) { uint64_t k = d <= s ? i : n - 1 - i; ir2c_st1(d + k, ir2c_ld1(s + k)); }
+}
+static inline void ir2c_flat_memset(uint64_t d, uint8_t c, uint64_t n) {
+	if(((d | n) & 3) == 0) { for(uint64_t i = 0; i < n; i += 4) ir2c_st4(d + i, 0x01010101u * c); }
+	else for(uint64_t i = 0; i < n; i++) ir2c_st1(d + i, c);
+}
+#ifdef IR2C_REGIONS_IMPL
+uint32_t R0[RWORDS]; uint32_t R1[RWORDS]; uint32_t R2[RWORDS]; uint32_t R3[RWORDS]; uint32_t R4[RWORDS]; uint32_t R5[RWORDS]; uint32_t R6[RWORDS]; uint32_t R7[RWORDS]; uint32_t R8[RWORDS]; uint32_t R9[RWORDS]; uint32_t R10[RWORDS]; uint32_t R11[RWORDS]; uint32_t R12[RWORDS]; uint32_t R13[RWORDS]; uint32_t R14[RWORDS]; uint32_t R15[RWORDS]; uint32_t R16[RWORDS]; uint32_t R17[RWORDS]; uint32_t R18[RWORDS]; uint32_t R19[RWORDS]; uint32_t R20[RWORDS]; uint32_t R21[RWORDS]; uint32_t R22[RWORDS]; uint32_t R23[RWORDS];
+#endif
 #endif
